@@ -333,7 +333,10 @@ func (i *interpreter) sliceBound(v value, capa int) int64 {
 		return asInt64(v)
 	}
 	w := int(t.Sort.W)
-	inb := i.ctx.BvUle(t, i.ctx.BVC(w, uint64(capa)))
+	inb := i.ctx.True()
+	if w >= 64 || uint64(capa) < (uint64(1)<<uint(w))-1 {
+		inb = i.ctx.BvUle(t, i.ctx.BVC(w, uint64(capa)))
+	}
 	if !i.decide(inb) {
 		return int64(capa) + 1 // any out-of-range value triggers the same panic
 	}
@@ -925,6 +928,9 @@ func (i *interpreter) unop(instr *ssa.UnOp, x value) value {
 			return -x
 		}
 	case token.MUL:
+		if sa, ok := x.(symAddr); ok {
+			return i.indexLoadNoCheck(sa.cells, sa.idx, sa.t)
+		}
 		return i.load(mustDeref(instr.X.Type()), x.(*value))
 	case token.NOT:
 		return !x.(bool)
